@@ -391,6 +391,7 @@ pub fn eval_history(h: &History, focus: Focus, profile: &str, full: bool) -> Cas
             "full-symmetry-pinned-users" => "family_full_symmetry_pinned_users",
             "symmetry-with-redundancy" => "family_symmetry_with_redundancy",
             "self-reference-with-symmetry" => "family_self_reference_with_symmetry",
+            "binder-over-context" => "family_binder_over_context",
             _ => "family_slot_variant",
         });
     }
